@@ -23,7 +23,8 @@ Proof. reflexivity. Qed.
 (* the truth value of the value is the truth-value semantics of BoundModel.eval *)
 Lemma truthy_oval : forall rho tau o, truthy (opval rho tau o) = eval rho (tsig tau) o.
 Proof.
-  intros rho tau o. induction o as [k op c fl | i | x | o IH | a vs IH] using operand_ind'.
+  intros rho tau o. induction o as [k op c fl | i | x | o IH | a vs IH | t0 ls] using operand_ind';
+    [| | | | |reflexivity].
   - reflexivity.
   - reflexivity.
   - reflexivity.
@@ -42,7 +43,8 @@ Qed.
 
 Lemma bool_valued_VB : forall rho tau o, bool_valued o = true -> exists b, opval rho tau o = VB b.
 Proof.
-  intros rho tau o. induction o as [k op c fl | i | x | o IH | a vs IH] using operand_ind'; intros H.
+  intros rho tau o. induction o as [k op c fl | i | x | o IH | a vs IH | t0 ls] using operand_ind'; intros H;
+    [| | | | |eexists; reflexivity].
   - eexists. reflexivity.
   - discriminate H.
   - eexists. reflexivity.
